@@ -88,14 +88,13 @@ def check(ctx):
             continue
         ctx.expect(where == exp_where[v], "C16.4", "error-kind/" + v, site(sites[v][0][1]) if sites.get(v) else "",
                    "TypeSubstitutionErrorKind::%s is produced only in %s" % (v, exp_where[v] or "no library function"), "produced in %s" % where)
-    expect_fn(ctx, "C16.4", "absolute/predicate", "substitutes::is_absolute",
-              "(let v1::Some($)=P0.leading_colon||(let v1::Some($)=Punctuated::first(P0.segments)&&(Punctuated::first(P0.segments)@v1::Some.0.ident=='crate')))",
-              "absolute iff leading `::` or first segment `crate`", S)
+    ABS = "(let v1::Some($)=P0.leading_colon||(let v1::Some($)=Punctuated::first(P0.segments)&&(Punctuated::first(P0.segments)@v1::Some.0.ident=='crate')))"
     fs = [b for b in q.fn_by_suffix(P, "std::convert::TryFrom<syn::Path>>::try_from", S)]
     if len(fs) == 1:
         expect_term(ctx, "C16.4", "absolute/checked-conversion", fs[0]["sp"], Norm(fs[0]).term(fs[0]["body"]),
-                    "if(substitutes::is_absolute(P0)){Ok(substitutes::AbsolutePath(P0))}else{Err(error::TypeSubstitutionError{kind:TypeSubstitutionErrorKind::ExpectedAbsolutePath,span:Spanned::span(P0)})}",
-                    "relative targets are rejected with ExpectedAbsolutePath; the path is wrapped unchanged otherwise")
+                    "if(%s){Ok(substitutes::AbsolutePath(P0))}else{Err(error::TypeSubstitutionError{kind:TypeSubstitutionErrorKind::ExpectedAbsolutePath,span:Spanned::span(P0)})}" % ABS,
+                    "absolute iff leading `::` or first segment `crate` (private predicate looked through); relative targets are rejected with ExpectedAbsolutePath; the path is "
+                    "wrapped unchanged otherwise")
     else:
         ctx.bad("C16.4", "missing-anchor/TryFrom<syn::Path> for AbsolutePath", "", "checked conversion not found")
     fn = q.fn1(P, "TypeSubstitutes::parse_path_param_mapping", S)
